@@ -14,6 +14,9 @@ CHECKS = {
          'Every half pattern and every float pattern is pushed through the real packHalf1x16/unpackHalf1x16 and judged by an independent bit-level model (nearest / tie / overflow / underflow / NaN / sign symmetry / monotonicity / round trip); vector overloads on lattice and random tuples. Complete enumeration of the scalar domain makes this as strong as execution-based monitoring gets for this property.',
          TRUST + ' The software model and the F16C instructions are compared on every input; a disagreement aborts the run as a harness failure.', 'DESIGN.md 7/C07'),
 }
+CHECKS['C05'] = ('runtime oracle: bit-by-bit GLSL reference models; complete enumeration of 8/16-bit domains, structured + random 32/64-bit inputs; pure and SIMD builds',
+         'All ten GLSL integer/bitfield functions, scalar and vec1..4, i8..u64, are evaluated on every 8/16-bit value crossed with every (offset,bits) pair and on single-bit / run-of-ones / boundary / random 32- and 64-bit values, each result compared with a loop-based model written from the GLSL text. The SMT equivalence mentioned in the quantifier is outside this technique family: for 32/64-bit widths the claim is held-on-N-inputs only.',
+         TRUST, 'DESIGN.md 7/C05')
 REASONS = {}
 
 checks = []
